@@ -153,6 +153,7 @@ func runC02(p *core.Prog, r *core.Report) {
 	r.Floor("R02.2", 1)
 	r.Floor("R02.3", 1)
 	aliasedInPlaceUpdates(c, "RA.1", "eddsa/signing", "common")
+	globalCurveCallers(c, "RG.1")
 }
 
 func isPtrTo32(t types.Type) bool {
